@@ -36,7 +36,7 @@ import (
 
 type connPlan struct {
 	Phase  string `json:"phase"`  // fresh parthead upstream writeblocked keepalive tunnel tundial pphdr tlshello
-	After  string `json:"after"`  // send release gone stay hdr hs
+	After  string `json:"after"`  // send sendconnect release gone stay hdr hs
 	Vanish bool   `json:"vanish"` // the client closes its socket at its phase, before shutdown begins
 }
 
@@ -441,6 +441,10 @@ func runScenario(sc scenario, e *env) (res result) {
 				c.c.Write([]byte(r.reqText(i, false))) //nolint:errcheck
 				r.expectResponseOrEOF(c, false)
 			}
+		case "sendconnect":
+			// the late request is a CONNECT: no dial, no 200 — the connection is just closed
+			c.c.Write([]byte(r.reqText(i, true))) //nolint:errcheck
+			r.expectResponseOrEOF(c, true)
 		case "hdr":
 			c.c.Write([]byte(ppHdr)) //nolint:errcheck
 			r.expectEOF(c)
@@ -623,7 +627,9 @@ var phases = []string{"fresh", "parthead", "upstream", "writeblocked", "keepaliv
 
 func aftersOf(phase string) []string {
 	switch phase {
-	case "fresh", "keepalive", "parthead":
+	case "fresh", "keepalive":
+		return []string{"send", "sendconnect", "gone", "stay"}
+	case "parthead":
 		return []string{"send", "gone", "stay"}
 	case "upstream", "writeblocked", "tundial":
 		return []string{"release", "gone", "stay"}
@@ -666,7 +672,7 @@ func genScenarios(tier string, r *rng.R) []scenario {
 						continue // would wait for ever
 					}
 					for _, van := range []bool{false, true} {
-						if van && (a == "send" || a == "hdr" || a == "hs" || p == "tlsclosing") {
+						if van && (a == "send" || a == "sendconnect" || a == "hdr" || a == "hs" || p == "tlsclosing") {
 							continue
 						}
 						if van && (pp || tl) {
@@ -712,7 +718,7 @@ func genScenarios(tier string, r *rng.R) []scenario {
 			}
 			as := aftersOf(ph)
 			a := as[r.Intn(len(as))]
-			van := r.Chance(1, 6) && a != "send" && a != "hdr" && a != "hs" && ph != "pphdr" && ph != "tlshello" && ph != "tlsclosing"
+			van := r.Chance(1, 6) && a != "send" && a != "sendconnect" && a != "hdr" && a != "hs" && ph != "pphdr" && ph != "tlshello" && ph != "tlsclosing"
 			gated := ph == "upstream" || ph == "writeblocked" || ph == "tundial" || ph == "tlsclosing"
 			if a == "stay" && (!van || gated) {
 				stay = true // this connection keeps Shutdown waiting (a held step stays held even if the client left)
@@ -798,6 +804,8 @@ type meta struct {
 	Shards     []string       `json:"shards"`
 	RunShards  []string       `json:"run_shards"`
 	RunCases   int            `json:"run_cases"`
+	MitmShards []string       `json:"mitm_shards"`
+	MitmCases  int            `json:"mitm_cases"`
 	ShardSize  int            `json:"shard_size"`
 	Cases      int            `json:"cases"`
 	Events     int            `json:"events"`
@@ -830,7 +838,8 @@ func main() {
 	r := rng.New(*seed)
 	e := startEnv()
 	var scs []scenario
-	var rscs []fwdRunScenario
+	var rscs, sigscs []fwdRunScenario
+	var mscs []mitmScenario
 	if *replay != "" {
 		raw, err := os.ReadFile(*replay)
 		if err != nil {
@@ -846,9 +855,17 @@ func main() {
 			os.Exit(2)
 		}
 		if rp.Kind == "run" {
-			var rs fwdRunScenario
+			rs := fwdRunScenario{SignalAfterMs: -1}
 			json.Unmarshal(rp.Scenario, &rs) //nolint:errcheck
-			rscs = []fwdRunScenario{rs}
+			if rs.SignalAfterMs >= 0 {
+				sigscs = []fwdRunScenario{rs}
+			} else {
+				rscs = []fwdRunScenario{rs}
+			}
+		} else if rp.Kind == "mitm" {
+			var ms mitmScenario
+			json.Unmarshal(rp.Scenario, &ms) //nolint:errcheck
+			mscs = []mitmScenario{ms}
 		} else {
 			var sc scenario
 			json.Unmarshal(rp.Scenario, &sc) //nolint:errcheck
@@ -857,6 +874,8 @@ func main() {
 	} else {
 		scs = genScenarios(*tier, r)
 		rscs = genRunScenarios(*tier)
+		sigscs = genSignalScenarios()
+		mscs = genMitmScenarios()
 	}
 	results := make([]result, len(scs))
 	sem := make(chan struct{}, *par)
@@ -878,7 +897,19 @@ func main() {
 			rres[i] = runRun(rscs[i])
 		}(i)
 	}
+	mres := make([]mitmResult, len(mscs))
+	for i := range mscs {
+		wg.Add(1)
+		go func(i int) {
+			defer wg.Done()
+			mres[i] = runMitm(mscs[i])
+		}(i)
+	}
 	wg.Wait()
+	// the drains cancelled by a signal share the process-wide signal: one after the other
+	for _, s := range sigscs {
+		rres = append(rres, runRun(s))
+	}
 
 	m := meta{ShardSize: 12, ByMode: map[string]int{}, ByPhase: map[string]int{}, ByAfter: map[string]int{}, ConnsHist: map[int]int{},
 		SdErrTexts: map[string]int{}, FinalRegs: map[int]int{}}
@@ -960,6 +991,28 @@ func main() {
 		m.RunShards = append(m.RunShards, "c11run_000.v")
 		m.RunCases = len(rres)
 		m.Samples = append(m.Samples, rres[len(rres)/2])
+	}
+	if len(mres) > 0 {
+		mj, _ := os.Create(filepath.Join(*out, "mcases.jsonl"))
+		var mc []string
+		for _, mr := range mres {
+			b, _ := json.Marshal(mr)
+			mj.Write(append(b, '\n')) //nolint:errcheck
+			if mr.Err != "" {
+				m.Errors = append(m.Errors, mr.Sc.Name+": "+mr.Err)
+			}
+			mc = append(mc, coqMitm(mr))
+		}
+		mj.Close()
+		var sb strings.Builder
+		sb.WriteString("From G11 Require Import ShutdownCheck.\nOpen Scope Z_scope.\n")
+		sb.WriteString("Definition mcases : list mcase :=\n [" + strings.Join(mc, ";\n  ") + "].\n")
+		sb.WriteString("Open Scope N_scope.\n")
+		sb.WriteString("Definition M := Eval vm_compute in (@nil N).\nPrint M.\n")
+		sb.WriteString("Definition P := Eval vm_compute in (bad mcase_prop_ok mcases).\nPrint P.\n")
+		os.WriteFile(filepath.Join(*out, "c11mitm_000.v"), []byte(sb.String()), 0o644) //nolint:errcheck
+		m.MitmShards = append(m.MitmShards, "c11mitm_000.v")
+		m.MitmCases = len(mres)
 	}
 	for i := 0; i < len(results) && i < 2; i++ {
 		res := results[(i*len(results))/2+len(results)/3]
